@@ -32,6 +32,8 @@ type Engine struct {
 	constGlobals map[string]*constGlobal // key "G:..." -> literal value info
 	globalStores map[*ssa.Global]bool
 	globalsScanned map[*ssa.Package]bool
+	immGlobals   map[string]bool
+	allScanned   bool
 	effSo *Sorts
 	LoadSeconds float64
 }
@@ -67,7 +69,7 @@ func Load(repo string, patterns []string, libDir string, overlay map[string][]by
 	e := &Engine{repo: repo, prog: prog, pkgs: pkgs, byPath: map[string]*packages.Package{}, cs: NewContractSet(),
 		effCache: map[*ssa.Function]*effSet{}, effBusy: map[*ssa.Function]bool{}, autoPureCache: map[*ssa.Function]int{},
 		readsCache: map[*ssa.Function]map[string]string{}, constGlobals: map[string]*constGlobal{}, globalStores: map[*ssa.Global]bool{},
-		globalsScanned: map[*ssa.Package]bool{}}
+		globalsScanned: map[*ssa.Package]bool{}, immGlobals: map[string]bool{}}
 	e.effSo = NewSorts(NewTB())
 	packages.Visit(pkgs, nil, func(p *packages.Package) {
 		e.byPath[p.PkgPath] = p
@@ -290,10 +292,13 @@ func (e *Engine) noteGlobal(fc *FnCtx, g *ssa.Global) {
 		return
 	}
 	fc.globalsNoted[key] = true
-	e.scanGlobals(g.Pkg)
+	e.scanAllGlobals()
 	if e.globalStores[g] {
 		return
 	}
+	// never stored outside init in the loaded non-test code: the variable keeps its initial value
+	e.immGlobals[key] = true
+	fc.immutableGlobalFacts(key, g)
 	pkg := e.byPath[g.Pkg.Pkg.Path()]
 	if pkg == nil {
 		return
@@ -320,6 +325,9 @@ func (e *Engine) noteGlobal(fc *FnCtx, g *ssa.Global) {
 }
 
 func (e *Engine) constGlobalKey(k string) bool {
+	if e.immGlobals[k] {
+		return true
+	}
 	_, ok := e.constGlobals[k]
 	return ok
 }
